@@ -204,6 +204,38 @@ def impl_parse(text, multiple=True, cls=None):
     return o, rec.log, comps
 
 
+def scramble(comp):
+    """what a caller who owns a parsed tree may do to it: every list reachable from it is edited in place"""
+    for c in list(comp.walk()):
+        for k in list(c.keys()):
+            vals = c[k] if isinstance(c[k], list) else [c[k]]
+            for v in vals:
+                ps = getattr(v, "params", None)
+                if ps is not None:
+                    for pv in list(ps.values()):
+                        if isinstance(pv, list):
+                            pv.append("zz")
+                            pv.reverse()
+                    ps["X-ADDED"] = "1"
+                if isinstance(v, dict):
+                    for pv in list(v.values()):
+                        if isinstance(pv, list):
+                            pv.append(pv[0] if pv else 1)
+                            pv.reverse()
+                for attr in ("dts", "cats"):
+                    lst = getattr(v, attr, None)
+                    if isinstance(lst, list) and lst:
+                        lst.append(lst[0])
+                        lst.reverse()
+            if isinstance(c[k], list):
+                c[k].reverse()
+        c["X-ADDED"] = "1"
+        if isinstance(getattr(c, "errors", None), list):
+            c.errors.append(("X", "added"))
+    for c in list(comp.walk()):
+        c.subcomponents.reverse()
+
+
 def impl_ser(comp, sorted=True):
     try:
         return comp.to_ical(sorted=sorted).decode("utf-8")
